@@ -92,6 +92,21 @@ def lex_spans(dialect, text):
 GARBAGE = ['x y', ')', 'select', '1 2', ',', 'foo bar baz', '(', 'from']
 
 
+_shorts = {}
+
+
+def short_statements(dialect):
+    """Complete statements of at most 2 tokens (BEGIN, COMMIT, ROLLBACK, SHOW TABLES ...) from the corpus."""
+    if dialect not in _shorts:
+        out = []
+        for s in accepted(dialect):
+            sp = lex_spans(dialect, re.sub(r'[\s;]+$', '', s))
+            if sp and len(sp) <= 2 and s.strip() not in out:
+                out.append(re.sub(r'[\s;]+$', '', s).strip())
+        _shorts[dialect] = out[:12] or ['commit']
+    return _shorts[dialect]
+
+
 def mutations(dialect, text, rng, limit=12):
     """Deterministic (given rng) token-level mutants of an accepted statement."""
     text = re.sub(r'[\s;]+$', '', text)
@@ -159,6 +174,18 @@ def mutations(dialect, text, rng, limit=12):
     out.append(('suffix;', text + ' ; ' + g))
     out.append(('concat', text + ' ; ' + text))
     out.append(('concat2', text + ' ' + text))
+    # comments around garbage / statements (the lexers drop comments; nothing else may be dropped)
+    out.append(('cmt-garbage', text + ' /* a */ ' + g + ' /* b */'))
+    out.append(('cmt-garbage-line', text + ' -- a\n' + g + ' -- b'))
+    out.append(('cmt-prefix', '/* a */ ' + g + ' /* b */ ' + text))
+    out.append(('cmt-ok', '/* a */ ' + ' /* m */ '.join(toks) + ' /* z */'))
+    out.append(('cmt-stmt', text + ' /* a */ ' + rng.choice(short_statements(dialect)) + ' /* b */'))
+    # a complete short statement injected in the middle / at either end
+    sh = rng.choice(short_statements(dialect))
+    k = rng.randrange(0, n + 1)
+    out.append(('inject-stmt', rebuild(toks[:k] + [sh] + toks[k:])))
+    k = rng.randrange(1, n) if n > 1 else 0
+    out.append(('inject-stmt', rebuild(toks[:k] + [rng.choice(short_statements(dialect))] + toks[k:])))
     return out
 
 
